@@ -103,6 +103,15 @@ def same_op_groupings(nterms, terms=CHAIN_TERMS, ops=("+", "*")):
     return out
 
 
+def unary_wrapped_groupings():
+    """same-operator groupings directly under a one-operand node (regrouping there re-links the operand of the
+    negation / function)"""
+    out = []
+    for g in same_op_groupings(3, ["2", "x", "y", "3x"]):
+        out += [f"-({g})", f"sgn({g})", f"-({g}) + 1", f"2 * sgn({g})", f"w - -({g})"]
+    return out
+
+
 def deep_chains():
     """five- and six-term same-operator groupings over tiny alphabets: nesting depth up to 5 for the chained
     classifiers (a group nested three or more levels deep)"""
